@@ -58,12 +58,16 @@ def runAnf (id : String) (SL SA : Sig) : String :=
   let scOut := rows.map fun ((_, g), _) => Scoped.scopedFn G g
   let scOutReal := SA.fns.map fun g => Scoped.scopedFn (globals SA) g
   let scContra := (rows.filter fun ((f, g), h) => h && Scoped.scopedFn G f && !Scoped.scopedFn G g).map fun ((f, _), _) => f.name
+  -- implementation-level: a scoped Lift function inside the hypothesis whose REAL ANF form is not scoped
+  let unscopedReal := if SA.fns.length != SL.fns.length then [] else
+    (((SL.fns.zip SA.fns).zip flags).filter fun ((f, g), h) =>
+      h && Scoped.scopedFn G f && !Scoped.scopedFn (globals SA) g).map fun ((f, _), _) => f.name
   s!"{id}\tanf\ttie={tieTag}\tstart={s}\tfns={SL.fns.length}\thyp={count flags}\twt_in={count wtIn}\tapplicable={count appl}" ++
   s!"\twt_out_model={count wtOut}\twt_out_real={count wtOutReal}\tcontra={" ".intercalate (contra.take 5)}" ++
   s!"\tclosed_in={count clIn}\tclosed_both={count clBoth}\tclosed_contra={" ".intercalate (clContra.take 5)}" ++
   s!"\tscoped_in={count scIn}\tscoped_applicable={count scAppl}\tscoped_out_model={count scOut}\tscoped_out_real={count scOutReal}" ++
   s!"\tscoped_contra={" ".intercalate (scContra.take 5)}" ++
-  s!"\tjudge_diff={" ".intercalate (judgeDiff.take 5)}" ++
+  s!"\tjudge_diff={" ".intercalate (judgeDiff.take 5)}\tunscoped_real={" ".intercalate (unscopedReal.take 5)}" ++
   s!"\tnot_in_hyp={" ".intercalate (notIn.take 5)}"
 
 /-- `(pres mono <wtcase core> <wtcase mono>)`: the decidable hypotheses of `mono_phase1_preserves_wtProg_partial`
@@ -120,6 +124,7 @@ def runLift (id : String) (SM SL : Sig) : String :=
   let scOut := r.1.map (Scoped.scopedFn G')
   let scOutReal := SL.fns.map (Scoped.scopedFn (globals SL))
   let contra := appl && !(scOut.all (fun b => b))
+  let unscopedReal := if appl then (SL.fns.filter fun g => !Scoped.scopedFn (globals SL) g).map (·.name) else []
   let tyHyp := Lift.presHypEnvTys closedTy env && Lift.presHypFnsTys closedTy SM.fns
   let tyOut := r.1.map (fnAllTys closedTy)
   let tyOutReal := SL.fns.map (fnAllTys closedTy)
@@ -133,6 +138,7 @@ def runLift (id : String) (SM SL : Sig) : String :=
   s!"\tclosed_contra={if tyContra then "program" else ""}" ++
   s!"\twt_partial_applicable={nStable}\twt_partial_model_identity={nSame}\twt_partial_real_identity={nSameReal}" ++
   s!"\tscoped_contra={if nSame != nStable then "wt-partial-identity" else ""}" ++
+  s!"\tunscoped_real={" ".intercalate (unscopedReal.take 5)}" ++
   s!"\tnot_in_hyp={if appl then "" else "whole-program"}"
 
 def runLine (l : String) : String :=
